@@ -169,8 +169,12 @@ def h_arg_kinds(ctx, fname, nmax, params=None):
              ('python int', int(pts[0])), ('list of floats', [float(v) for v in pts]), ('tuple of ints', tuple(pts))]
     if DOMAINS[fname] in ('any', 'gt1', 'pos', 'nonzero'):
         cases += [('int32 array, large', np.array([100000, 46341], dtype=np.int32)), ('int8 array, 20', np.array([20, 12], dtype=np.int8))]
-    for n in range(1, nmax + 1):
+    for n in range(0, nmax + 1):
         for label, arg in cases:
+            if n == 0 and (label.startswith('int8') or fname in ('square', 'reciprocal')):
+                # order 0 is NumPy's own function: it evaluates int8 arguments in half precision and
+                # keeps integer arithmetic for square / reciprocal
+                continue
             ref = call(algopy, fname, np.asarray(arg, dtype=float), n, params)
             try:
                 got = call(algopy, fname, arg, n, params)
@@ -270,6 +274,12 @@ def units(tier, seed):
             continue
         out.append(Unit('C16/%s/argument kinds (integer-typed arrays, python int, list, tuple)/n<=2' % fname, 'symx.props.c16', 'h_arg_kinds',
                         {'fname': fname, 'nmax': 2}, dict(opts, float_rel=1e-9)))
+    out.append(Unit('C16/polygamma(m=1)/argument kinds (integer-typed arrays, python int, list, tuple)/n<=2', 'symx.props.c16', 'h_arg_kinds',
+                    {'fname': 'polygamma', 'nmax': 2, 'params': {'m': 1}}, dict(opts, float_rel=1e-9)))
+    out.append(Unit('C16/polygamma(m=0)/argument kinds (integer-typed arrays, python int, list, tuple)/n<=2', 'symx.props.c16', 'h_arg_kinds',
+                    {'fname': 'polygamma', 'nmax': 2, 'params': {'m': 0}}, dict(opts, float_rel=1e-9)))
+    out.append(Unit('C16/hyperu(3/2,1/2)/argument kinds (integer-typed arrays, python int, list, tuple)/n<=2', 'symx.props.c16', 'h_arg_kinds',
+                    {'fname': 'hyperu', 'nmax': 2, 'params': {'a': '3/2', 'b': '1/2'}}, dict(opts, float_rel=1e-9)))
     for fname in ('expm1', 'exp', 'exp2'):
         out.append(Unit('C16/%s/orders 1..3 at points far from the origin, relative comparison' % fname, 'symx.props.c16', 'h_far_points', {'fname': fname}, dict(opts)))
     add('hyperu(3/2,1/2)/order given as a NumPy integer/n<=2', 'h_order_types', fname='hyperu', nmax=2, params={'a': '3/2', 'b': '1/2'})
